@@ -9,6 +9,24 @@ From PV Require Import lib.Sx lib.Str lib.Result.
 Import ListNotations.
 Open Scope Z_scope.
 
+(* utils.split_lines: re.split('\r\n|\r|\n', content), a final empty piece dropped - the document readers split at
+   LF, CR LF and CR only (U+2028, U+0085, VT, FF ... are ordinary text).  Same shape as str.splitlines. *)
+Definition is_lf_cr (c : Z) : bool := (c =? 10) || (c =? 13).
+Fixpoint split_lines_aux (s : str) (cur : str) (started : bool) : list str :=
+  match s with
+  | [] => if started then [rev cur] else []
+  | c :: t =>
+      if is_lf_cr c then
+        rev cur :: (if c =? 13
+                    then match t with
+                         | 10 :: t' => split_lines_aux t' [] false
+                         | _ => split_lines_aux t [] false
+                         end
+                    else split_lines_aux t [] false)
+      else split_lines_aux t (c :: cur) true
+  end.
+Definition split_lines (s : str) : list str := split_lines_aux s [] false.
+
 Definition py_int (s : str) : result Z :=
   match int_of_digits s with Some z => Ok z | None => Err ValueError end.
 
@@ -91,7 +109,7 @@ Fixpoint srt_loop (fuel : nat) (rest : list str) (acc : list rcap) : result (lis
   end.
 
 Definition srt_read (content : str) : result (list rcap) :=
-  let lines := splitlines content in
+  let lines := split_lines content in
   no_captions_if_empty (srt_loop (S (length lines)) lines []).
 
 (* ============================== WebVTT ======================================= *)
@@ -189,7 +207,7 @@ Fixpoint vtt_loop (strict : bool) (shift : Z) (lines : list str) (st : vtt_state
 
 Definition vtt_read (strict : bool) (shift_ms : Z) (content : str) : result (list rcap) :=
   no_captions_if_empty
-    (do st <- vtt_loop strict (shift_ms * 1000) (splitlines content) (mkVS [] 0 0 [] false);
+    (do st <- vtt_loop strict (shift_ms * 1000) (split_lines content) (mkVS [] 0 0 [] false);
      Ok (match vs_nodes st with
          | [] => vs_caps st
          | _ => vs_caps st ++ [(vs_start st, vs_end st, vs_nodes st)]
@@ -268,10 +286,20 @@ Definition dfxp_offset (s : str) : option (result Z) :=
     end
   end.
 
-Definition dfxp_time (s : str) : result Z :=
+Definition dfxp_time_strict (s : str) : result Z :=
   match dfxp_clock s with
   | Some r => r
   | None => match dfxp_offset s with Some r => r | None => Err ETiming end
+  end.
+
+(* `$` also matches just before one final newline *)
+Definition chop_final_newline (s : str) : str :=
+  match rev s with 10 :: r => rev r | _ => s end.
+
+Definition dfxp_time (s : str) : result Z :=
+  match dfxp_time_strict s with
+  | Err ETiming => dfxp_time_strict (chop_final_newline s)
+  | r => r
   end.
 
 (* _find_and_convert_times on the begin / end / dur attributes of a <p> *)
@@ -293,12 +321,53 @@ Definition dfxp_p_times (b e d : option str) : result (Z * Z) :=
 Definition dfxp_div_times (ps : list (option str * option str * option str)) : result (list (Z * Z)) :=
   res_map (fun p => let '(b, e, d) := p in dfxp_p_times b e d) ps.
 
+(* ---- decimal literals as float() and Fraction() read them ------------------------------------
+   [blanks] [+|-] ( digits [ '.' digits* ] | '.' digits ) [ (e|E) [+|-] digits ] [blanks]   -> (numerator, denominator)
+   exact value (underscores between digits, inf and nan are not modelled) *)
+Definition dec_literal (s0 : str) : option (Z * Z) :=
+  let s := strip s0 in
+  let '(neg, s1) := match s with 43 :: r => (false, r) | 45 :: r => (true, r) | _ => (false, s) end in
+  let ip := take_while is_digit s1 in
+  let r1 := drop_while is_digit s1 in
+  let '(fp, r2) := match r1 with
+                   | 46 :: r => (take_while is_digit r, drop_while is_digit r)
+                   | _ => ([], r1)
+                   end in
+  match ip ++ fp with
+  | [] => None
+  | m =>
+    let ex : option Z :=
+      match r2 with
+      | [] => Some 0
+      | e :: r3 =>
+          if (e =? 101) || (e =? 69) then
+            let '(eneg, r4) := match r3 with 43 :: r => (false, r) | 45 :: r => (true, r) | _ => (false, r3) end in
+            match int_of_digits r4 with Some x => Some (if eneg then - x else x) | None => None end
+          else None
+      end in
+    match digits_val_acc m 0, ex with
+    | Some mant, Some x =>
+        let mant := if neg then - mant else mant in
+        let e10 := x - Z.of_nat (length fp) in
+        Some (if 0 <=? e10 then (mant * 10 ^ e10, 1) else (mant, 10 ^ (- e10)))
+    | _, _ => None
+    end
+  end.
+
 (* ============================== SAMI ========================================= *)
-(* milliseconds = int(float(start_str)) on digit strings *)
+(* milliseconds = int(float(start_str)): digit strings, else any decimal literal, truncated toward zero
+   (exact decimal value; binary64 rounding of float() is not modelled: exact below 2^53) *)
 Definition sami_start (o : option str) : result Z :=
   match truthy o with
   | None => Err ETiming
-  | Some s => py_int s
+  | Some s =>
+      match py_int s with
+      | Ok z => Ok z
+      | Err _ => match dec_literal s with
+                 | Some (n, d) => Ok (Z.quot n d)
+                 | None => Err ValueError
+                 end
+      end
   end.
 
 (* for i in reversed(range(len(captions))):
@@ -351,8 +420,8 @@ Definition mdvd_line (line : str) : option (str * str * str) :=
   | _ => None
   end.
 
-(* float(txt); Fraction(txt.strip()) on the literals  digits [ '.' digits ] : (num, den) *)
-Definition mdvd_fps (txt : str) : result (Z * Z) :=
+(* float(txt); Fraction(txt.strip()): first the plain literals  digits [ '.' digits ] : (num, den) *)
+Definition mdvd_fps_plain (txt : str) : result (Z * Z) :=
   let t := strip txt in
   let d1 := take_while is_digit t in
   match d1, drop_while is_digit t with
@@ -363,6 +432,16 @@ Definition mdvd_fps (txt : str) : result (Z * Z) :=
                            Ok (n * pow10 (length f) + fp, pow10 (length f))
       else Err ETiming
   | _, _ => Err ETiming
+  end.
+
+(* ... then every other decimal literal (sign, leading '.', exponent, surrounding blanks) *)
+Definition mdvd_fps (txt : str) : result (Z * Z) :=
+  match mdvd_fps_plain txt with
+  | Ok v => Ok v
+  | Err _ => match dec_literal txt with
+             | Some (n, d) => if n <? 0 then Err ETiming (* negative rates: not modelled *) else Ok (n, d)
+             | None => Err ETiming
+             end
   end.
 
 (* int(framenum * 10**6 / Fraction(fps)) *)
@@ -397,7 +476,7 @@ Fixpoint mdvd_loop (lines : list str) (fps : Z * Z) (acc : list rcap) : result (
   end.
 
 Definition mdvd_read (content : str) : result (list rcap) :=
-  no_captions_if_empty (mdvd_loop (splitlines content) (25, 1) []).
+  no_captions_if_empty (mdvd_loop (split_lines content) (25, 1) []).
 
 (* ---- pre-fix variant, kept on record (not used by the oracle) ------------------------------ *)
 (* before `fix: DFXP clock-time fraction with more than 3 digits was scaled as milliseconds`:
